@@ -661,6 +661,9 @@ def unmodelled(reader: str, lit: str) -> bool:
             else:
                 i += 1
         return False
+    if reader == "cppw" and re.search(r'"[ \t]*"', lit[2:]):
+        # a wide literal followed by an unprefixed literal (`L"a" "b"`) is legal C++; the reader only models `L"a" L"b"`
+        return True
     if reader in ("cppw", "cppn", "cppc"):
         # raw non-ASCII in narrow literals (execution charset), multi-character constants, \e and other extensions,
         # universal-character-names below U+00A0 (allowed in literals since C++11) and \u{...}, \o{...}
